@@ -502,3 +502,30 @@ pub fn for_each_instr_mut(i: &mut I, f: &mut dyn FnMut(&mut I)) {
         _ => {}
     }
 }
+
+/// number of appends to streams / maps that sit inside the body of a fold over a stream or map
+pub fn appends_inside_stream_folds(i: &I) -> usize {
+    fn go(i: &I, inside: bool, n: &mut usize) {
+        match i {
+            I::Call { out: Some(o), .. } if inside && (o.starts_with('$') || o.starts_with('%')) => *n += 1,
+            I::Ap { dst, .. } if inside && dst.starts_with('$') => *n += 1,
+            I::ApMap { .. } if inside => *n += 1,
+            I::Seq(a, b) | I::Par(a, b) | I::Xor(a, b) => {
+                go(a, inside, n);
+                go(b, inside, n);
+            }
+            I::Match(_, _, b) | I::Mismatch(_, _, b) | I::New { body: b, .. } => go(b, inside, n),
+            I::Fold { iterable, body, last, .. } => {
+                let streamlike = matches!(iterable, Arg::Var { name, .. } if name.starts_with('$') || name.starts_with('%'));
+                go(body, inside || streamlike, n);
+                if let Some(l) = last {
+                    go(l, inside || streamlike, n);
+                }
+            }
+            _ => {}
+        }
+    }
+    let mut n = 0;
+    go(i, false, &mut n);
+    n
+}
